@@ -360,7 +360,7 @@ func TestVerifC16(t *testing.T) {
 			want := true
 			ninv := 0
 			for _, tx := range txs {
-				if tx.VerifyAuth(context.Background()) != nil {
+				if !pvRefVerify(tx) {
 					want = false
 					ninv++
 				}
@@ -461,7 +461,12 @@ func c16Line(w int, items []string) string {
 }
 
 func c16Generate(r *verifh.Run) []string {
-	out := []string{"facts", "block w=1", "block w=3 s1", "block w=2 b0", "block w=4 e2",
+	out := []string{"facts",
+		// secp256r1 keys with the same X and opposite parity (d and n-d), and a malformed prefix byte: a
+		// signature verifies only under exactly the named key, whatever was verified before in this process
+		"block w=1 s1 s7 s1", "block w=1 s1 s8 s9",
+		"block w=1 s1", "block w=1 s7", "block w=1 s8", "block w=1 s9", "block w=1 s8 s1", "blocke w=2 s1 s1 s1 s8 s7",
+		"block w=1", "block w=3 s1", "block w=2 b0", "block w=4 e2",
 		// overlapping jobs on one pool: a failure must neither poison the next job nor be wiped by it
 		"overlap w=2 b-before-release A s1 s0g B e1 s1",
 		"overlap w=2 b-after-a A s1 s0g B s1 b1",
@@ -596,6 +601,26 @@ func c16Generate(r *verifh.Run) []string {
 			it[bpos[x]], it[bpos[x+1+r.RNG.Intn(len(bpos)-1-x)]] = "b5", "b6"
 		}
 		out = append(out, c16Line(1+r.RNG.Intn(4), it))
+	}
+	for i := 0; i < r.N(60, 2000); i++ {
+		// a valid tx of key d (position divisible by 3) first, then txs naming the other parity / a bad prefix
+		n := 2 + r.RNG.Intn(6)
+		it := make([]string, n)
+		for j := range it {
+			it[j] = string("sseb"[r.RNG.Intn(4)]) + "1"
+		}
+		it[0] = "s1"
+		for q := 0; q < 1+r.RNG.Intn(2); q++ {
+			it[1+r.RNG.Intn(n-1)] = "s" + string("7889"[r.RNG.Intn(4)])
+		}
+		op := "block"
+		if r.RNG.Chance(30) {
+			op = "blocke"
+		}
+		out = append(out, op+c16Line(1+r.RNG.Intn(3), it)[5:])
+		if r.RNG.Chance(50) { // and across consecutive blocks
+			out = append(out, c16Line(1, []string{"s" + string("789"[r.RNG.Intn(3)])}))
+		}
 	}
 	nrand := r.N(500, 12000)
 	for i := 0; i < nrand; i++ {
